@@ -232,6 +232,10 @@ def gen_step(rng, p, pipe, group, idx, targets, handlers, later_pipes, depth_tag
             k = rng.choice(live)
             st['onError'] = rng.choice(['at {%s}' % k, {'d': [['item', '{%s}' % k], ['n', '{n}']]},
                                         {'l': ['{%s}' % k, 'braces {{kept}}']}])
+    if rng.random() < 0.12:
+        # a plain-text description: only logged, must change nothing
+        st['description'] = rng.choice(['does a thing', 'step of ' + group, 'note: 100%', 'about {word}', 'n is {n}',
+                                        '{missing_key}' if rng.random() < 0.3 else 'plain', ''])
     inn = [['ptag', tag]]
     if rng.random() < 0.5:
         inn.append(['pwatch', {'l': rng.sample(['cnt', 'flag', 'arg1', 'call', 'out1', 'i', 'set', 'word', 'shared'],
